@@ -139,6 +139,8 @@ func checkC14(p *Prog, r *Report) {
 	// a pooled output buffer that is not emptied before use prepends an earlier rendering's leftovers
 	rulePoolDiscipline(p, a, r, "R-C14-POOL")
 
+	ruleC14Unbuffered(p, a, r)
+
 	// ---- R-C14-ERR
 	r.Begin("R-C14-ERR", "ExecuteWriter hands the caller's writer's error back", 1)
 	if writeTo != nil {
@@ -540,4 +542,122 @@ func ruleNilPointerFromData(p *Prog, a *Anchors, r *Report, rule string) {
 	if n == 0 {
 		r.Trivial("none", "-", "no pointer-typed assertion on caller data")
 	}
+}
+
+// ruleC14Unbuffered: the unbuffered variant fails in the same cases as the buffered one also when it is the caller's
+// writer that fails, and what it has written is a leading part of the full output. The output nodes ignore the results
+// of their writes (errcheck lists 39 such sites), so the adapter between them and the caller's writer has to keep the
+// first error, stop writing after it, and the entry point has to return it.
+func ruleC14Unbuffered(p *Prog, a *Anchors, r *Report) {
+	r.Begin("R-C14-UNBUF", "the writer adapter of the unbuffered variant remembers the first error of the caller's writer, writes nothing after it, and the entry point returns it when execution itself succeeded", 2)
+	ioWriter := lookupStdType(p, "io", "Writer")
+	// the adapter: a package struct type with an io.Writer field whose pointer implements TemplateWriter
+	var adapter *types.Named
+	var wField, errField string
+	sc := p.Pkg.Types.Scope()
+	for _, name := range sc.Names() {
+		tn, ok := sc.Lookup(name).(*types.TypeName)
+		if !ok {
+			continue
+		}
+		st, ok := tn.Type().Underlying().(*types.Struct)
+		if !ok || !types.Implements(types.NewPointer(tn.Type()), a.TemplateWriter) {
+			continue
+		}
+		w, e := "", ""
+		for i := 0; i < st.NumFields(); i++ {
+			if ioWriter != nil && types.Identical(st.Field(i).Type(), ioWriter) {
+				w = st.Field(i).Name()
+			}
+			if types.Identical(st.Field(i).Type(), types.Universe.Lookup("error").Type()) {
+				e = st.Field(i).Name()
+			}
+		}
+		if w != "" {
+			adapter, wField, errField = tn.Type().(*types.Named), w, e
+		}
+	}
+	if adapter == nil {
+		r.Unk("adapter", "-", "anchor unresolved: the struct that adapts an io.Writer to TemplateWriter")
+		return
+	}
+	an := adapter.Obj().Name()
+	if errField == "" {
+		r.Bad(an+":remembers", "-", "%s has no error field: an error of the caller's writer is lost (every output node discards the result of its write), ExecuteWriterUnbuffered returns nil and keeps writing", an)
+		return
+	}
+	// every invoke of Write on the wrapped writer: under errField == nil, and its error stored into errField on every path
+	nInv := 0
+	for _, m := range p.Methods(adapter) {
+		for _, b := range m.Blocks {
+			for i, in := range b.Instrs {
+				c, ok := in.(*ssa.Call)
+				if !ok || !c.Common().IsInvoke() || !loadsField(c.Common().Value, an, wField) {
+					continue
+				}
+				nInv++
+				key := p.FuncName(m) + ":forward"
+				guarded := Guarded(in, func(cond ssa.Value, pol bool) bool {
+					x, eq, isNil := condIsNilTest(cond)
+					return isNil && eq == pol && loadsField(x, an, errField)
+				})
+				stored := true
+				for _, ret := range returnsOf(m) {
+					if !ReachesInstr(b, ret) {
+						continue
+					}
+					if !MustPassFrom(b, i+1, ret, func(x ssa.Instruction) bool {
+						st, ok := x.(*ssa.Store)
+						return ok && isFieldAddrOf(st.Addr, an, errField)
+					}) {
+						stored = false
+					}
+				}
+				switch {
+				case !guarded:
+					r.Bad(key, p.InstrPos(in), "the caller's writer is written to although an earlier write has failed: what arrives is not a leading part of the output (a writer that rejects one chunk and accepts the next gets a hole)")
+				case !stored:
+					r.Bad(key, p.InstrPos(in), "the result of the write to the caller's writer is not kept in %s.%s on every path: the error is lost", an, errField)
+				default:
+					r.OK(key, p.InstrPos(in), "forwarded only while no write has failed; the result is remembered in %s.%s", an, errField)
+				}
+			}
+		}
+	}
+	if nInv == 0 {
+		r.Unk(an+":forward", "-", "no write to the wrapped writer found in the methods of %s", an)
+	}
+	// entry points that construct the adapter around the caller's writer return the remembered error
+	p.EachInstr(func(f *ssa.Function, in ssa.Instruction) {
+		al, ok := in.(*ssa.Alloc)
+		if !ok {
+			return
+		}
+		if pt, ok := al.Type().(*types.Pointer); !ok || !types.Identical(pt.Elem(), adapter) {
+			return
+		}
+		// only adapters around a caller-supplied writer (a parameter), not around local buffers
+		aroundParam := false
+		for _, v := range p.fieldStores([]*ssa.Alloc{al}, fieldIndex(adapter, wField)) {
+			if _, isParam := stripConv(v).(*ssa.Parameter); isParam {
+				aroundParam = true
+			}
+		}
+		if !aroundParam {
+			return
+		}
+		key := p.FuncName(f) + ":returns-writer-error"
+		okAll := true
+		for _, ret := range successReturns(f) {
+			v := res(ret, len(ret.Results)-1)
+			if !loadsField(v, an, errField) {
+				okAll = false
+			}
+		}
+		if okAll && len(successReturns(f)) > 0 {
+			r.OK(key, p.InstrPos(in), "when execution succeeds the remembered writer error (nil if none) is returned")
+		} else {
+			r.Bad(key, p.InstrPos(in), "%s can return nil although the caller's writer has failed: the unbuffered variant succeeds where ExecuteWriter reports the writer's error", p.FuncName(f))
+		}
+	})
 }
